@@ -38,7 +38,9 @@ var soupKeywords = []string{"SELECT", "FROM", "WHERE", "GROUP", "BY", "AS", "OR"
 
 var soupWords = []string{"a", "b", "x1", "temp", "s.a", "a.b.c", "_", "_x", "count", "sum", "avg", "lag", "had_changed", "acc_sum",
 	"changed_cols", "upper", "concat", "window_start", "nth_value", "unknown_fn", "expr", "stream", "t", "limit_x", "orders",
-	"A", "B", "true", "false", "nil", "selct", "form", "wher", "gropu", "oder", "distinc"}
+	"A", "B", "true", "false", "nil", "selct", "form", "wher", "gropu", "oder", "distinc",
+	// calls nested in calls (the HAVING rewriter once cut overlapping spans out of range on max(max(x)))
+	"max(max(0*0))", "sum(avg(a))", "count(sum(", "min(upper(max(a)))", "sum(a) + max(min(b))"}
 
 var soupNumbers = []string{"0", "1", "42", "-1", "3.14", "1.2.3", "1.", ".5", "1e9", "0x1F", "99999999999999999999999", "-", "-0", "00", "1a", "5s"}
 
@@ -195,6 +197,32 @@ func genSoup(t *rapid.T) *Soup {
 		if chance(t, "cutTail", 30) {
 			sp.Pre = append(sp.Pre, pick(t, "tail", []string{"`", "'", "\"", "(", " ", "``", "`a"})...)
 		}
+	case k < 17:
+		// a well-formed statement with calls nested in calls (aggregate in aggregate, aggregate in scalar, scalar in
+		// aggregate) in one of its clauses: whether the engine accepts or rejects it, it must say so without panicking
+		sp.Mode = "nestcall"
+		e := nestedCall(t, "nc", rapid.IntRange(1, 4).Draw(t, "ncDepth"))
+		if chance(t, "ncCmp", 60) {
+			e += " " + pick(t, "ncOp", []string{">", "<", "=", "!=", ">=", "+", "*"}) + " " + pick(t, "ncRhs", []string{"1", "0*0", "'x'", "b", nestedCall(t, "nc2", 2)})
+		}
+		win := pick(t, "ncWin", []string{"TumblingWindow('1s')", "CountingWindow(3)", "g, CountingWindow(2)", "SessionWindow('1s')"})
+		switch rapid.IntRange(0, 5).Draw(t, "ncCtx") {
+		case 0:
+			sp.Pre = []byte("SELECT count(*) AS c FROM s GROUP BY " + win + " HAVING " + e)
+		case 1:
+			sp.Pre = []byte("SELECT " + e + " AS r, count(*) AS c FROM s GROUP BY " + win)
+		case 2:
+			sp.Pre = []byte("SELECT " + e + " FROM s")
+		case 3:
+			sp.Pre = []byte("SELECT a FROM s WHERE " + e)
+		case 4:
+			sp.Pre = []byte("SELECT count(*) AS c FROM s GROUP BY " + win + " ORDER BY " + e)
+		default:
+			sp.Pre = []byte("SELECT count(*) AS c FROM s GROUP BY g, GLOBAL WINDOW TRIGGER WHEN " + e)
+		}
+		if chance(t, "ncCase", 30) {
+			sp.Pre = []byte(caseOf(string(sp.Pre), 4))
+		}
 	case k < 18:
 		sp.Mode = "run"
 		sp.Pre = []byte(pick(t, "pre", soupPrefixes))
@@ -211,6 +239,26 @@ func genSoup(t *rapid.T) *Soup {
 	}
 	sp.Text = strconv.Quote(s)
 	return sp
+}
+
+var nestFns = []string{"max", "min", "sum", "avg", "count", "stddev", "percentile", "collect", "first_value", "lag", "upper", "abs", "round", "concat", "coalesce", "unknown_fn"}
+
+// nestedCall writes fn(fn(...(leaf))) of the given depth, with an occasional extra argument or operand.
+func nestedCall(t *rapid.T, label string, depth int) string {
+	if depth <= 0 {
+		return pick(t, label+"leaf", []string{"a", "0*0", "*", "v + 1", "'x'", "d.v", "1", ""})
+	}
+	inner := nestedCall(t, label+"i", depth-1)
+	switch rapid.IntRange(0, 5).Draw(t, label+"form") {
+	case 0:
+		inner += ", 0.5"
+	case 1:
+		inner = "1 + " + inner
+	case 2:
+		inner = inner + " * " + nestedCall(t, label+"r", depth-1)
+	}
+	sep := pick(t, label+"sp", []string{"", "", "", " "})
+	return pick(t, label+"fn", nestFns) + sep + "(" + inner + ")"
 }
 
 // mutatedStatement renders a valid generated statement and damages it at token level.
